@@ -29,7 +29,13 @@ def _subst(node, mapping):
             sa = A.strip(arg, casts=True)
             if sa is not None and sa.get('k') in ('DeclRefExpr', 'MemberExpr'): return sa
             return {'k': 'ParenExpr', 'l': node.get('l'), 'sub': arg, 't': node.get('t')}
-        return {k: _subst(v, mapping) for k, v in node.items()}
+        out = {k: _subst(v, mapping) for k, v in node.items()}
+        if out.get('k') == 'ConditionalOperator' and isinstance(out.get('cond'), dict):
+            # `flag ? a : b` with a constant argument substituted for the parameter `flag` is the selected operand
+            c = A.const(out['cond'])
+            if c is not None and any(y.get('k') == 'DeclRefExpr' and y.get('id') in mapping for y in A.walk(node.get('cond'))):
+                return out.get('then') if c else out.get('else')
+        return out
     if isinstance(node, list):
         return [_subst(x, mapping) for x in node]
     return node
